@@ -47,7 +47,10 @@ def reply_term(o):
     return "mkReply %s %s %s" % (OUT[head.replace("+c", "")], cbool(head.endswith("+c")), val_term(*split_val(val)))
 
 KIND = {"exec": "KExec", "query": "KQuery", "prepare": "KPrepare", "stmtexec": "KStmtExec"}
-PANICVALS = ["string", "error", "nil", "struct", "runtime"]
+# values a body panics with: a string, an error, nil (*runtime.PanicNilError), a custom struct, an error whose Error method
+# panics, and runtime.Errors produced for real: nil-map write, index out of range, nil pointer dereference, failed type
+# assertion, integer division by zero, call of a nil func
+PANICVALS = ["string", "error", "nil", "struct", "runtime", "index", "nilptr", "assert", "divzero", "nilfunc", "errpanics"]
 
 
 # ---- translator: the shape of the function that ends the transaction, the built-in acceptable errors ----
@@ -387,6 +390,32 @@ def enumerate_trip_during():
             n += 1
             cases.append(C(threads=[T(api=rot(["ctx", "cached"], n), steps=[S(), S(act="tripbrk"), S(act=extra, onfail="ignore"),
                                                                              S(onfail="ignore"), S(act="tripbrk")], fin=fin)]))
+    return cases
+
+
+def enumerate_panic_values():
+    """SENTINEL PANIC VALUES (seeded C14-12): the body panics with every kind of value - PANICVALS - after 0 or 1 statement
+    or as its reaction to a failing statement, through every API, the Rollback working / failing / panicking; and
+    runtime.Goexit. Whatever the value, the panic is rolled back once and REPORTED AS AN ERROR: the call returns (it panics
+    itself only when the driver's Rollback panicked)."""
+    cases = []
+    n = 0
+    for pv in PANICVALS:
+        for api in APIS:
+            for endo in ("ok", "fail", "panic"):
+                for shape in range(3):
+                    n += 1
+                    if shape == 0:
+                        th, pre = T(api=api, fin="panic", panicval=pv), 1
+                    elif shape == 1:
+                        th, pre = T(api=api, steps=[S(meth=rot(["exec", "query"], n), withctx=n % 2 == 0)], fin="panic", panicval=pv), 2
+                    else:   # the body panics because its statement failed
+                        th, pre = T(api=api, steps=[S(onfail="panic", withctx=n % 2 == 1)], fin="nil", panicval=pv), 1
+                    orc = ["ok"] * pre + ([endo] if shape < 2 else ["fail", endo])
+                    cases.append(C(conns=[{"kind": rot(["db", "named"], n), "accept": n % 2}], threads=[th, T(steps=[S()])], oracle=orc))
+    for api in APIS:
+        for endo in ("ok", "fail", "panic"):
+            cases.append(C(threads=[T(api=api, steps=[S()], fin="goexit")], oracle=["ok", "ok", endo]))
     return cases
 
 
@@ -788,6 +817,13 @@ class C14(Property):
             C(threads=[T(api="cachedplain", steps=[S(act="tripbrk")], fin="goexit")]),
             C(threads=[T(steps=[S(), S()]), T(steps=[S(act="tripbrk")], fin="err")], sched=[0, 0, 1, 1, 1, 0, 0]),
             C(threads=[T(steps=[S(act="tripbrk"), S()])], oracle=["ok", "ok", "fail"]),      # ... and the commit fails
+            # the body panics with a runtime.Error / panic(nil) and the rollback works: reported as an error (seeded C14-12)
+            C(threads=[T(fin="panic", panicval="nilptr")]),
+            C(threads=[T(api="plain", steps=[S()], fin="panic", panicval="index")]),
+            C(threads=[T(api="cached", steps=[S(meth="query")], fin="panic", panicval="nil")]),
+            C(threads=[T(api="cachedplain", fin="panic", panicval="runtime"), T(steps=[S()])]),
+            C(threads=[T(steps=[S(onfail="panic")], panicval="assert")], oracle=["ok", "fail"]),
+            C(threads=[T(fin="panic", panicval="divzero")], oracle=["ok", "fail"]),           # ... and the rollback fails
             # the body tolerates the failure of its LAST statement and returns nil: that is a commit (seeded C14-10)
             C(threads=[T(steps=[S(onfail="ignore")])], oracle=["ok", "fail"]),
             C(threads=[T(api="plain", steps=[S(), S(meth="query", onfail="ignore")])], oracle=["ok", "ok", "fail"]),
@@ -828,6 +864,7 @@ class C14(Property):
         cases += enumerate_nested_calls()
         cases += enumerate_trip_during()
         cases += forced_trip_cases()
+        cases += enumerate_panic_values()
         for i in range(n):
             cases.append(rand_world(rng, ("long", "seq", "seq", "conc", "conc", "nested")[i % 6]))
         for i in range(40 if thorough else 6):
@@ -1070,6 +1107,8 @@ class C14(Property):
             bad.append("tx%d: driver %s, body %s, returned %s" % (
                 t, tr, o["body"], "panic" if o["did_panic"] else "never" if o["finished"] and not o["returned"]
                 else repr(o["err"].get("text") or None)))
+            if o["did_panic"] and o.get("panicked"):
+                bad.append("tx%d: %s" % (t, o["panicked"][:200]))
             if o.get("nest_runs"):
                 bad.append("tx%d: the body handed to a Transact on the transaction's OWN session ran %d time(s) (no transaction "
                            "was begun for it)" % (t, o["nest_runs"]))
